@@ -133,6 +133,14 @@ pub fn profile_for(prop: &str, variant: u64) -> Profile {
             w[K::TravelRedo as usize] = 3;
             w[K::PastStage as usize] = 4;
             p.converge_end = 30;
+            if variant % 5 == 0 {
+                // commits that fail at a storage write, are given up (unstage) and redone on the same instance:
+                // what the live replica shows afterwards must still be complete in its storage
+                p.name = "causal-delivery-write-faults";
+                w[K::FailRedo as usize] = 8;
+                w[K::FailWrites as usize] = 6;
+                w[K::Unstage as usize] = 5;
+            }
         }
         "C03" => {
             p.name = "commit-durability";
@@ -224,6 +232,13 @@ pub fn profile_for(prop: &str, variant: u64) -> Profile {
             w[K::ReloadUntil as usize] = 3;
             w[K::Reload as usize] = 4;
             w[K::Exchange as usize] = 16;
+            if variant % 4 == 0 {
+                // the same instance keeps being used after failed writes (state left behind by error paths)
+                p.name = "returns-write-faults";
+                w[K::FailRedo as usize] = 8;
+                w[K::FailWrites as usize] = 8;
+                w[K::DiskFull as usize] = 1;
+            }
         }
         "C09" | "C15f" => {
             p.name = "write-faults";
